@@ -199,6 +199,10 @@ var c09Atoms = []string{"\\'", "''", "'", "\"", "\"\"", "\\\"", "`", "``", "\\\\
 var c09PairAtoms = []string{"`a`", "`", "'a'", "'", "\"a\"", "MOD", "or", "select", "union", "a", "1", ".5", "1.", ".", "a.", "0x1", "1e", "$a$", "$a", "$1", "@a", "@", "[a]", "[", "q'(", "n'a'", "x'1'", "u&'a'", "--", "#", "/*", "*/", "/*a*/", "\\", "(", ")", ",", ";", "=", "-", " ", "\n",
 	"<", "<a", "<a ", ">", "/", "b=c", "b='c'", "=", "<!--", "-->", "<!", "<?", "<%", "%>", "]]>", "&#", "&#1;", "-", "\x00", "href=", "onx="}
 
+// complete constructs with a body of >= 4 bytes (a per-construct cost proportional to the rest of the input only shows then)
+var c09Constructs = []string{"<!--abcd-->", "<?abcdef>", "<%abcd%>", "</ abcd>", "<!abcd>", "<![CDATA[abcd]]>", "<a bcde=fghi>", "<abcd>", "</abcd>", "<a href=http://abcd>", "<a href='abcd'>", "<a onx=abcd>",
+	"'abcd'", "\"abcd\"", "`abcd`", "/*abcd*/", "--abcd\n", "#abcd\n", "[abcd]", "$a$bcde$a$", "q'(abcd)'", "@abcd", "0x1234", "12345", "abcde", "abcd.efgh", "&#1234;", "&#x1234;", "'abcd',", "\"abcd\"+", "`abcd`.", "e'abcd',", "@'abcd',", "(abcd)", "{abcd}", "abcd=efgh", "abcd efgh,"}
+
 var c09Prefixes = []string{"", "'", "\"", "`", "/*", "q'(", "q'\xe9", "$a$", "$$", "--", "#", "@", "@`", "[", "1 ", "x' or ", "<a b='", "<a b=\"", "<a b=`", "<a b=", "<a ", "<!--", "<![CDATA[", "<%", "<!", "<?", "<!doctype ", "<", "</", "<a href=", "<a href='"}
 var c09Suffixes = []string{"", "'", "\"", "*/", ")'", "$a$", "-->", "]]>", "%>", ">", " union select 1 --"}
 
@@ -237,6 +241,16 @@ func TestC09(t *testing.T) {
 		add(famCase("counter", "", u, ""))
 		add(famCase("counter", "'", u, ""))
 		add(famCase("counter", "<a ", u, ""))
+	}
+	for _, u := range c09Constructs {
+		for _, p := range []string{"", "'", "\"", "1 ", "<a ", "<a b='", "<!--", "x' or "} {
+			add(famCase("repeat", p, u, ""))
+		}
+		for _, v := range c09Constructs {
+			if thorough() {
+				add(famCase("repeat", "", u+v, ""))
+			}
+		}
 	}
 	nPairAtoms := len(c09PairAtoms)
 	for i, a := range c09PairAtoms {
